@@ -265,8 +265,31 @@ pub fn count_members(u: &Value) -> usize {
     refmodel::all_nodes(u).iter().filter(|p| matches!(p.last(), Some(refmodel::Seg::N(_)))).count()
 }
 
+/// The claim domain of C01 excludes what the JWT layer itself interprets at the top level:
+/// aud, a non-string sub, a non-numeric nbf (and cnf when a holder key is bound, handled per configuration).
+pub fn in_claim_domain(u: &Value) -> bool {
+    let Some(m) = u.as_object() else { return false };
+    if m.contains_key("aud") {
+        return false;
+    }
+    if let Some(s) = m.get("sub") {
+        if !s.is_string() {
+            return false;
+        }
+    }
+    if let Some(n) = m.get("nbf") {
+        if !n.is_number() {
+            return false;
+        }
+    }
+    true
+}
+
 /// Alphabet pass trees: every leaf value at every leaf position, every name at every member position.
 pub fn alphabet_trees(base: &[Value], names: &[&str]) -> Vec<Value> {
+    alphabet_trees_unfiltered(base, names).into_iter().filter(in_claim_domain).collect()
+}
+fn alphabet_trees_unfiltered(base: &[Value], names: &[&str]) -> Vec<Value> {
     let mut out = vec![];
     for u in base {
         for k in 0..count_leaves(u) {
